@@ -133,4 +133,63 @@ theorem skipWS_none_stripped : ∀ (ts : List Token), skipWS ts = none → strip
       exact this
     · simp at h
 
+/-- what a primitive shows of the iterator, up to layout: the front token and the stripped tail -/
+def viewWS (r : Option (Token × List Token)) : Option (Token × List Token) := r.map (fun p => (p.1, stripWS p.2))
+
+theorem skipWS_view (ts : List Token) : viewWS (skipWS ts) = (match stripWS ts with | [] => none | t :: x => some (t, x)) := by
+  cases h : skipWS ts with
+  | none => simp [viewWS, skipWS_none_stripped ts h]
+  | some p =>
+    obtain ⟨t, r⟩ := p
+    have := skipWS_sees_stripped ts t r h
+    simp [viewWS, this.1]
+
+/-- `skipWS` is layout invariant: two iterators with the same non-whitespace tokens show the same front token and
+equivalent tails. -/
+theorem skipWS_layout_invariant (ts ts' : List Token) (h : stripWS ts = stripWS ts') :
+    viewWS (skipWS ts) = viewWS (skipWS ts') := by
+  rw [skipWS_view, skipWS_view, h]
+
+/-- so are `checkToken`, `expect`, `expectOrPanic` -/
+theorem checkToken_layout_invariant (ts ts' : List Token) (ty : TT) (h : stripWS ts = stripWS ts') :
+    (checkToken ts ty).map (fun p => (p.1, p.2.1, stripWS p.2.2)) = (checkToken ts' ty).map (fun p => (p.1, p.2.1, stripWS p.2.2)) := by
+  have := skipWS_layout_invariant ts ts' h
+  unfold checkToken
+  cases h1 : skipWS ts <;> cases h2 : skipWS ts' <;> simp_all [viewWS]
+
+theorem stripWS_cons_nonWS (t : Token) (r : List Token) (h : t.ty.isWS = false) : stripWS (t :: r) = t :: stripWS r := by
+  simp [stripWS, h]
+
+theorem skipWS_front_nonWS {ts : List Token} {t : Token} {r : List Token} (h : skipWS ts = some (t, r)) : t.ty.isWS = false := by
+  induction ts with
+  | nil => simp [skipWS] at h
+  | cons x xs ih =>
+    unfold skipWS at h
+    split at h
+    · exact ih h
+    · rename_i hx
+      simp only [Option.some.injEq, Prod.mk.injEq] at h
+      rw [← h.1]; simpa using hx
+
+theorem expect_layout_invariant (ts ts' : List Token) (ty : TT) (h : stripWS ts = stripWS ts') :
+    (expect ts ty).map (fun p => (p.1, stripWS p.2)) = (expect ts' ty).map (fun p => (p.1, stripWS p.2)) := by
+  have hv := skipWS_layout_invariant ts ts' h
+  unfold expect checkToken
+  cases h1 : skipWS ts with
+  | none =>
+    cases h2 : skipWS ts' with
+    | none => rfl
+    | some p => rw [h1, h2] at hv; simp [viewWS] at hv
+  | some p =>
+    cases h2 : skipWS ts' with
+    | none => rw [h1, h2] at hv; simp [viewWS] at hv
+    | some p' =>
+      obtain ⟨t, r⟩ := p
+      obtain ⟨t', r'⟩ := p'
+      rw [h1, h2] at hv
+      simp only [viewWS, Option.map_some, Option.some.injEq, Prod.mk.injEq] at hv
+      obtain ⟨rfl, hr⟩ := hv
+      have hws := skipWS_front_nonWS h1
+      cases hb : (t.ty == ty) <;> simp [hb, hr, stripWS_cons_nonWS t _ hws]
+
 end TLVerif.Props.C23
